@@ -264,12 +264,13 @@ func applyC13(t *rapid.T, base World, kind string) (World, bool) {
 		l.Issuer = "ca2"
 	case "edit:signatureAlgorithm":
 		cur := effSigAlg(l)
+		var others []string
 		for _, s := range sigAlgNames[4:] {
 			if s != cur {
-				l.SigAlg = s
-				break
+				others = append(others, s)
 			}
 		}
+		l.SigAlg = rapid.SampledFrom(others).Draw(t, "new-sigalg") // every ordered pair of algorithms, not just "the first other one"
 	case "edit:serial":
 		if l.Serial == nil {
 			l.Serial = core.Int64P(77)
